@@ -1,6 +1,7 @@
 package main
 
 import (
+	"bytes"
 	"encoding/binary"
 	"fmt"
 	"sort"
@@ -20,21 +21,24 @@ import (
 // Timestamps are drawn from a tiny universe so sessions start inside, adjacent to and
 // around existing data, write into existing data and write backwards.
 type topCase struct {
-	h     *harness.H
-	c     int
-	r     *prng.R
-	fs    xfs.FS
-	db    *cesium.DB
-	cap   telem.Size
-	state [2][]dom // committed domains of idx, data
-	log   []string
-	dead  bool
+	h      *harness.H
+	c      int
+	r      *prng.R
+	fs     xfs.FS
+	db     *cesium.DB
+	cap    telem.Size
+	state  [nTop][]dom // committed domains of idx, i64 data, string data
+	noRead bool        // after a DeleteTimeRange the full-read comparison is left to C04
+	log    []string
+	dead   bool
 
 	successes, mustFails int
 	val                  int64
 }
 
-var topKeys = [2]cesium.ChannelKey{keyIdx, keyData}
+const nTop = 3
+
+var topKeys = [nTop]cesium.ChannelKey{keyIdx, keyData, keyStr}
 
 func (t *topCase) logf(f string, a ...any) { t.log = append(t.log, fmt.Sprintf(f, a...)) }
 
@@ -46,8 +50,8 @@ func (t *topCase) violate(sig, what string) {
 	})
 }
 
-func (t *topCase) enumerate(after string) ([2][]dom, bool) {
-	var out [2][]dom
+func (t *topCase) enumerate(after string) ([nTop][]dom, bool) {
+	var out [nTop][]dom
 	for i, k := range topKeys {
 		u, ok := t.db.VerifUnary(k)
 		if !ok {
@@ -93,7 +97,10 @@ func (t *topCase) unchanged(after, sig string) bool {
 
 // readable: a full read through the public API returns exactly the committed samples.
 func (t *topCase) readable(after string) bool {
-	fr, err := t.db.Read(ctx, telem.TimeRangeMax, keyIdx, keyData)
+	if t.noRead {
+		return true
+	}
+	fr, err := t.db.Read(ctx, telem.TimeRangeMax, topKeys[:]...)
 	if err != nil {
 		t.violate("c03:committed-data-unreadable", fmt.Sprintf("after %s: Read: %v", after, err))
 		return false
@@ -142,7 +149,7 @@ func (t *topCase) session() {
 	r := t.r
 	start := t.pickTS()
 	variant := r.Intn(3)
-	cfg := cesium.WriterConfig{Start: telem.TimeStamp(start), Channels: []cesium.ChannelKey{keyIdx, keyData}}
+	cfg := cesium.WriterConfig{Start: telem.TimeStamp(start), Channels: topKeys[:]}
 	tr, fl := true, false
 	switch variant {
 	case 0:
@@ -156,7 +163,10 @@ func (t *topCase) session() {
 		cfg.Sync = &tr
 	}
 	op := fmt.Sprintf("open(start=%d,v=%d)", start, variant)
-	in := inside(t.state[0], start) || inside(t.state[1], start)
+	in := false
+	for ch := range t.state {
+		in = in || inside(t.state[ch], start)
+	}
 	if in {
 		t.mustFails++
 		t.h.Count("open_inside_attempts", 1)
@@ -184,20 +194,24 @@ func (t *topCase) session() {
 	t.h.Count("writers_opened", 1)
 	type hyp struct {
 		curStart, prevCommit int64
-		bufI, bufD           []byte
+		buf                  []byte
 	}
-	// Whether a successful commit rolled the writer over to a new file (and so to a new
+	// Every channel has its own file and so its own rollover points. Whether a
+	// successful commit rolled a channel's writer over to a new file (and so to a new
 	// domain starting at the commit end) is known for cap=1B (always) and 1GB (never);
-	// for the 64B cap both possibilities are kept as hypotheses until the next
-	// successful commit shows which one the committed state matches.
-	hyps := []hyp{{curStart: start}}
+	// for the 64B cap both possibilities are kept per channel as hypotheses until the
+	// next successful commit shows which one the committed state matches.
+	var hyps [nTop][]hyp
+	for ch := range hyps {
+		hyps[ch] = []hyp{{curStart: start}}
+	}
 	rounds := r.Range(1, 3)
 	closed := false
 	for k := 0; k < rounds && !t.dead && !closed; k++ {
 		n := r.Range(1, 4)
-		base := hyps[0].curStart
-		if hyps[0].prevCommit != 0 {
-			base = hyps[0].prevCommit
+		base := hyps[0][0].curStart
+		if hyps[0][0].prevCommit != 0 {
+			base = hyps[0][0].prevCommit
 		}
 		if r.Chance(1, 4) {
 			base = t.pickTS()
@@ -214,53 +228,65 @@ func (t *topCase) session() {
 			vals[i] = t.val
 		}
 		end := tss[n-1] + 1
-		reasons := make([]string, len(hyps))
-		owns := make([]int, len(hyps))
-		mustFail := true
-		for hi, hy := range hyps {
-			own := -1
-			if hy.prevCommit != 0 {
-				for i, d := range t.state[0] {
-					if d.S == hy.curStart {
-						own = i
-					}
-				}
-			}
-			owns[hi] = own
-			reason := ""
-			if end <= hy.curStart {
-				reason = "zero-length"
-			}
-			for ch := 0; ch < 2 && reason == ""; ch++ {
-				for i, d := range t.state[ch] {
-					if i != own && overlaps(hy.curStart, end, d.S, d.E) {
-						reason = "overlap"
-					}
-				}
-			}
-			if reason == "" && hy.prevCommit != 0 && end < hy.prevCommit {
-				reason = "backward"
-			}
-			reasons[hi] = reason
-			if reason == "" {
-				mustFail = false
-			}
+		strs := make([]string, n)
+		var strBytes []byte
+		for i := range strs {
+			strs[i] = fmt.Sprintf("v%06d", vals[i])[:1+int(vals[i]%5)]
+			strBytes = append(strBytes, telem.MarshalVariableSample([]byte(strs[i]))...)
 		}
+		newBytes := [nTop][]byte{le64(tss), le64(vals), strBytes}
+		// per channel, per hypothesis: why this commit would be illegal ("" = legal)
+		var reasons [nTop][]string
+		var owns [nTop][]int
+		mustFail, anyReason := false, false
 		reason := ""
-		if mustFail {
-			reason = reasons[0]
-			if len(hyps) > 1 && reasons[0] == "backward" {
-				// 64B cap, rollover state unknown: under the not-rolled hypothesis the
-				// commit moves backwards, under the rolled one it ends before its start.
-				// A success can only come from the rollover path.
-				reason = "backward:on-file-rollover"
+		for ch := 0; ch < nTop; ch++ {
+			chMust := true
+			for _, hy := range hyps[ch] {
+				own := -1
+				if hy.prevCommit != 0 {
+					for i, d := range t.state[ch] {
+						if d.S == hy.curStart {
+							own = i
+						}
+					}
+				}
+				rs := ""
+				if end <= hy.curStart {
+					rs = "zero-length"
+				}
+				for i, d := range t.state[ch] {
+					if rs == "" && i != own && overlaps(hy.curStart, end, d.S, d.E) {
+						rs = "overlap"
+					}
+				}
+				if rs == "" && hy.prevCommit != 0 && end < hy.prevCommit {
+					rs = "backward"
+				}
+				reasons[ch] = append(reasons[ch], rs)
+				owns[ch] = append(owns[ch], own)
+				if rs == "" {
+					chMust = false
+				} else {
+					anyReason = true
+				}
+			}
+			if chMust && !mustFail {
+				mustFail = true
+				reason = reasons[ch][0]
+				if len(hyps[ch]) > 1 && reason == "backward" {
+					// 64B cap, rollover state unknown: under the not-rolled hypothesis the
+					// commit moves backwards, under the rolled one it ends before its start.
+					// A success can only come from the rollover path.
+					reason = "backward:on-file-rollover"
+				}
 			}
 		}
 		fr := telem.MultiFrame(
-			[]cesium.ChannelKey{keyIdx, keyData},
-			[]telem.Series{telem.NewSeries(toTS(tss)), telem.NewSeries(vals)},
+			topKeys[:],
+			[]telem.Series{telem.NewSeries(toTS(tss)), telem.NewSeries(vals), telem.NewSeries(strs)},
 		)
-		wop := fmt.Sprintf("write+commit(ts=%v)[start=%d,prev=%d,hyps=%d]", tss, hyps[0].curStart, hyps[0].prevCommit, len(hyps))
+		wop := fmt.Sprintf("write+commit(ts=%v)[idx start=%d,prev=%d,hyps=%d]", tss, hyps[0][0].curStart, hyps[0][0].prevCommit, len(hyps[0]))
 		if mustFail {
 			t.mustFails++
 			t.h.Count("commit_conflict_attempts", 1)
@@ -280,20 +306,83 @@ func (t *topCase) session() {
 			_, err = w.Commit()
 		}
 		t.logf("%s -> %s", wop, errClass(err))
+		st, ok := t.enumerate(wop)
+		if !ok {
+			_ = w.Close()
+			return
+		}
+		// expectation per channel: which hypothesis (if any) explains the new state as
+		// "own domain set to [curStart,end) holding everything written in it"
+		var matched [nTop]int
+		var nbuf [nTop][]byte
+		var illegalApplied [nTop]string // an ILLEGAL candidate that the new state equals
+		for ch := 0; ch < nTop; ch++ {
+			matched[ch] = -1
+			for hi, hy := range hyps[ch] {
+				buf := append(append([]byte(nil), hy.buf...), newBytes[ch]...)
+				if reasons[ch][hi] != "" {
+					if owns[ch][hi] >= 0 {
+						exp := cloneState(t.state[ch])
+						exp[owns[ch][hi]] = dom{hy.curStart, end, buf}
+						if equalState(exp, st[ch]) {
+							illegalApplied[ch] = reasons[ch][hi]
+						}
+					}
+					continue
+				}
+				exp := cloneState(t.state[ch])
+				nd := dom{hy.curStart, end, buf}
+				if owns[ch][hi] >= 0 {
+					exp[owns[ch][hi]] = nd
+				} else {
+					exp = append(exp, nd)
+					sort.SliceStable(exp, func(i, j int) bool { return exp[i].S < exp[j].S })
+				}
+				if equalState(exp, st[ch]) {
+					matched[ch], nbuf[ch] = hi, buf
+					break
+				}
+			}
+		}
 		if err != nil {
 			closed = true
 			cl := w.Close()
 			t.logf("close -> %s", errClass(cl))
-			if !t.unchanged(wop, "c03:failed-commit-changed-committed-data") {
+			// "leaving all previously committed data unchanged": every channel is either
+			// untouched or shows exactly the result its own (legal) commit would have had:
+			// the multi-channel commit is not atomic, a channel whose range was free
+			// commits although another channel's commit failed. That adds new data but
+			// does not change previously committed data; it is counted, not a verdict.
+			partial := false
+			for ch := 0; ch < nTop; ch++ {
+				if equalState(st[ch], t.state[ch]) {
+					continue
+				}
+				if matched[ch] >= 0 {
+					partial = true
+					continue
+				}
+				if illegalApplied[ch] != "" {
+					// this channel applied a commit it had to reject (the writer as a whole
+					// failed because another channel did reject it)
+					sg := "c03:conflicting-commit-accepted:" + illegalApplied[ch]
+					if illegalApplied[ch] == "backward" && len(hyps[ch]) > 1 {
+						sg += ":on-file-rollover"
+					}
+					t.violate(sg, fmt.Sprintf("%s failed as a whole, but channel %d applied it: before {%s} after {%s}", wop, topKeys[ch], fmtState(t.state[ch]), fmtState(st[ch])))
+					return
+				}
+				t.violate("c03:failed-commit-changed-committed-data", fmt.Sprintf("after %s: channel %d committed data changed: before {%s} after {%s}", wop, topKeys[ch], fmtState(t.state[ch]), fmtState(st[ch])))
+				return
+			}
+			if partial {
+				t.h.Count("failed_commits_partially_applied_on_other_channels", 1)
+				t.state = st
+				t.noRead = true // channels now differ in content; reading is C01/C04's
+			} else if !t.readable(wop) {
 				return
 			}
 			if !mustFail {
-				anyReason := false
-				for _, rs := range reasons {
-					if rs != "" {
-						anyReason = true
-					}
-				}
 				if anyReason {
 					t.h.Count("commit_rollover_ambiguous_rejected", 1)
 					return
@@ -310,61 +399,34 @@ func (t *topCase) session() {
 			return
 		}
 		if mustFail {
-			st, _ := t.enumerate(wop)
 			t.violate("c03:conflicting-commit-accepted:"+reason, fmt.Sprintf("%s succeeded; idx before {%s} after {%s}", wop, fmtState(t.state[0]), fmtState(st[0])))
 			_ = w.Close()
 			return
 		}
-		st, ok := t.enumerate(wop)
-		if !ok {
-			_ = w.Close()
-			return
-		}
-		matched := -1
-		var nbI, nbD []byte
-		for hi, hy := range hyps {
-			if reasons[hi] != "" {
-				continue
+		for ch := 0; ch < nTop; ch++ {
+			if matched[ch] < 0 {
+				t.violate("c03:commit-result-mismatch", fmt.Sprintf("%s succeeded but channel %d matches no admissible outcome: before {%s} after {%s}", wop, topKeys[ch], fmtState(t.state[ch]), fmtState(st[ch])))
+				_ = w.Close()
+				return
 			}
-			bI := append(append([]byte(nil), hy.bufI...), le64(tss)...)
-			bD := append(append([]byte(nil), hy.bufD...), le64(vals)...)
-			all := true
-			for ch, buf := range [][]byte{bI, bD} {
-				exp := cloneState(t.state[ch])
-				nd := dom{hy.curStart, end, buf}
-				if owns[hi] >= 0 {
-					exp[owns[hi]] = nd
-				} else {
-					exp = append(exp, nd)
-					sort.SliceStable(exp, func(i, j int) bool { return exp[i].S < exp[j].S })
-				}
-				if !equalState(exp, st[ch]) {
-					all = false
-				}
-			}
-			if all {
-				matched, nbI, nbD = hi, bI, bD
-				break
-			}
-		}
-		if matched < 0 {
-			t.violate("c03:commit-result-mismatch", fmt.Sprintf("%s succeeded but the committed state matches no admissible outcome: idx before {%s} after {%s}; data before {%s} after {%s}", wop, fmtState(t.state[0]), fmtState(st[0]), fmtState(t.state[1]), fmtState(st[1])))
-			_ = w.Close()
-			return
 		}
 		t.state = st
 		t.successes++
 		t.h.Count("commits_ok", 1)
-		notRolled := hyp{hyps[matched].curStart, end, nbI, nbD}
-		rolled := hyp{curStart: end}
-		switch {
-		case t.cap == 1:
+		for ch := 0; ch < nTop; ch++ {
+			notRolled := hyp{hyps[ch][matched[ch]].curStart, end, nbuf[ch]}
+			rolled := hyp{curStart: end}
+			switch {
+			case t.cap == 1:
+				hyps[ch] = []hyp{rolled}
+			case t.cap >= telem.Gigabyte:
+				hyps[ch] = []hyp{notRolled}
+			default:
+				hyps[ch] = []hyp{notRolled, rolled}
+			}
+		}
+		if t.cap == 1 {
 			t.h.Count("rollovers", 1)
-			hyps = []hyp{rolled}
-		case t.cap >= telem.Gigabyte:
-			hyps = []hyp{notRolled}
-		default:
-			hyps = []hyp{notRolled, rolled}
 		}
 	}
 	if !closed {
@@ -387,6 +449,91 @@ func toTS(v []int64) []telem.TimeStamp {
 	return out
 }
 
+// deleteRange: DeleteTimeRange over a random channel subset. The statement only asks that
+// what remains is ordered, non-overlapping, within its files, and that every surviving
+// domain is a contiguous piece of a previous one with everything outside [a,b) untouched
+// (exactness of the cut is C04's). The model adopts the observed state.
+func (t *topCase) deleteRange() {
+	r := t.r
+	a, b := t.pickTS(), t.pickTS()
+	if a > b {
+		a, b = b, a
+	}
+	if a == b {
+		b = a + int64(r.Range(1, 8))
+	}
+	var keys []cesium.ChannelKey
+	switch r.Intn(3) {
+	case 0:
+		keys = topKeys[:]
+	case 1:
+		keys = []cesium.ChannelKey{keyData, keyStr}
+	default:
+		keys = []cesium.ChannelKey{topKeys[1+r.Intn(2)]}
+	}
+	err := t.db.DeleteTimeRange(ctx, keys, telem.TimeRange{Start: telem.TimeStamp(a), End: telem.TimeStamp(b)})
+	op := fmt.Sprintf("delete(%v,[%d,%d))", keys, a, b)
+	t.logf("%s -> %s", op, errClass(err))
+	t.noRead = true
+	// Root-cause specific signature first: a cut point resolved to the zero timestamp
+	// (domain starting at 0 or ending at 1 that did not exist before).
+	for ch, k := range topKeys {
+		u, _ := t.db.VerifUnary(k)
+		ds, _ := enumerateDomain(u.VerifDomain())
+		for _, d := range ds {
+			if d.S != 0 && d.E != 1 {
+				continue
+			}
+			existed := false
+			for _, o := range t.state[ch] {
+				if o.S == d.S && o.E == d.E {
+					existed = true
+				}
+			}
+			if !existed {
+				t.violate("c03:delete-cut-snapped-to-epoch", fmt.Sprintf("%s left channel %d with domain %v (cut point resolved to timestamp 0): before {%s} after {%s}", op, k, d, fmtState(t.state[ch]), fmtState(ds)))
+				return
+			}
+		}
+	}
+	st, ok := t.enumerate(op)
+	if !ok {
+		return
+	}
+	t.h.Count("deletes", 1)
+	named := map[cesium.ChannelKey]bool{}
+	for _, k := range keys {
+		named[k] = true
+	}
+	for ch, k := range topKeys {
+		if !named[k] {
+			if !equalState(st[ch], t.state[ch]) {
+				t.violate("c03:delete-touched-data-outside-range", fmt.Sprintf("%s changed channel %d which was not named: before {%s} after {%s}", op, k, fmtState(t.state[ch]), fmtState(st[ch])))
+				return
+			}
+			continue
+		}
+		for _, n := range st[ch] {
+			found := false
+			for _, o := range t.state[ch] {
+				if n.S >= o.S && n.E <= o.E && bytes.Contains(o.Data, n.Data) {
+					found = true
+					if !overlaps(o.S, o.E, a, b) && (n.S != o.S || n.E != o.E || !bytes.Equal(n.Data, o.Data)) {
+						t.violate("c03:delete-touched-data-outside-range", fmt.Sprintf("%s: channel %d %v became %v", op, k, o, n))
+						return
+					}
+					break
+				}
+			}
+			if !found {
+				t.violate("c03:delete-produced-foreign-domain", fmt.Sprintf("%s: channel %d domain %v is not a piece of any previous domain {%s}", op, k, n, fmtState(t.state[ch])))
+				return
+			}
+		}
+	}
+	t.state = st
+}
+
 func (t *topCase) reopen() {
 	if err := t.db.Close(); err != nil {
 		t.dead = true
@@ -405,7 +552,7 @@ func (t *topCase) reopen() {
 }
 
 func layerCesium(h *harness.H) {
-	h.AddRule("cesium: 4-14 sequential public-API writer sessions (OpenWriter(start)/Write(index timestamps+int64 values)/Commit/Close, explicit or auto commit, sync or not) on index+data channel, timestamps in 1..60 biased to domain edges, file cap in {1B,64B,1GB}, reopen; distinct+non-trivial = distinct log with >=2 successful commits and >=1 conflicting open/commit evaluated")
+	h.AddRule("cesium: 4-14 sequential public-API writer sessions (OpenWriter(start)/Write(index timestamps+int64 values)/Commit/Close, explicit or auto commit, sync or not) on index + int64 + string channel, DeleteTimeRange over channel subsets, timestamps in 1..60 biased to domain edges, file cap in {1B,64B,1GB}, reopen; distinct+non-trivial = distinct log with >=2 successful commits and >=1 conflicting open/commit evaluated")
 	caps := []telem.Size{1, 64, telem.Gigabyte}
 	parallel(h, "cesium", h.N(400, 40000), func(c int) {
 		r := h.Rand("cesium", c)
@@ -419,6 +566,7 @@ func layerCesium(h *harness.H) {
 		if err = t.db.CreateChannel(ctx,
 			cesium.Channel{Key: keyIdx, Name: "idx", IsIndex: true, DataType: telem.TimeStampT},
 			cesium.Channel{Key: keyData, Name: "data", Index: keyIdx, DataType: telem.Int64T},
+			cesium.Channel{Key: keyStr, Name: "str", Index: keyIdx, DataType: telem.StringT},
 		); err != nil {
 			h.Inconclusive("create-channel-failed")
 			return
@@ -427,6 +575,10 @@ func layerCesium(h *harness.H) {
 		for i := 0; i < n && !t.dead; i++ {
 			if r.Chance(1, 10) {
 				t.reopen()
+				continue
+			}
+			if i > 1 && r.Chance(1, 6) {
+				t.deleteRange()
 				continue
 			}
 			t.session()
